@@ -20,11 +20,12 @@ GenLeavesSmall == {Num("bool", 0), Net("src", N24, 24), Net("dst", <<10, 0, 0, 5
                    Num("proto", UDP), Port("sport", 80, 100), Port("dport", 80, 80)}
 
 Addrs == {<<10, 0, 0, 5>>, <<10, 0, 0, 9>>, <<10, 0, 1, 5>>}
-L4 == {<<TCP, 1, 80, 80>>, <<TCP, 1, 79, 101>>, <<UDP, 1, 100, 80>>, <<UDP, 1, 80, 100>>,
+\* both transports with source-only and destination-only hits of the port ranges
+L4 == {<<TCP, 1, 80, 100>>, <<TCP, 1, 100, 80>>, <<TCP, 1, 79, 101>>, <<UDP, 1, 100, 80>>, <<UDP, 1, 80, 100>>,
        <<ICMP, 0, 0, 0>>, <<TCP, 0, 0, 0>>, <<SCTP, 0, 0, 0>>}
 GenPkts == {Pkt(s, d, tos, l[1], l[2], l[3], l[4]) : s \in Addrs, d \in {<<10, 0, 0, 5>>, <<10, 0, 1, 5>>},
                                                      tos \in {0, 184, 185, 255, 40, 72}, l \in L4}
-L4Thorough == L4 \cup {<<TCP, 1, 81, 79>>, <<UDP, 1, 65535, 0>>, <<UDP, 1, 0, 65535>>, <<TCP, 1, 100, 100>>}
+L4Thorough == L4 \cup {<<TCP, 1, 80, 80>>, <<UDP, 1, 79, 101>>, <<TCP, 1, 81, 79>>, <<UDP, 1, 65535, 0>>, <<UDP, 1, 0, 65535>>, <<TCP, 1, 100, 100>>}
 GenPktsThorough == {Pkt(s, d, tos, l[1], l[2], l[3], l[4]) : s \in Addrs \cup {<<10, 0, 0, 4>>, <<10, 0, 0, 8>>, <<11, 0, 0, 5>>},
                                                      d \in Addrs, tos \in {0, 184, 185, 187, 255, 3, 40, 72, 28, 48}, l \in L4Thorough}
 
